@@ -37,6 +37,23 @@ fn main() {
                 |s| s.parse().expect("--workers"),
             );
             let t0 = Instant::now();
+            // --shard i/n: run worker i of n in this (single) thread - used under Miri / valgrind,
+            // where parallelism comes from separate processes
+            if let Some(sh) = arg(&args, "--shard") {
+                let (i, n) = sh.split_once('/').expect("--shard i/n");
+                let (i, n): (usize, usize) = (i.parse().expect("shard"), n.parse().expect("shard"));
+                let mut ctx = Ctx::new(&prop, &build, tier, seed, i, n);
+                (def.run)(&mut ctx);
+                let json = ctx.to_json(t0.elapsed().as_secs_f64(), def.required);
+                match out {
+                    Some(p) => std::fs::write(&p, json).expect("write out"),
+                    None => print!("{}", json),
+                }
+                if had_harness_error() {
+                    std::process::exit(3);
+                }
+                return;
+            }
             let mut handles = vec![];
             for w in 0..nworkers {
                 let prop = prop.clone();
